@@ -94,7 +94,8 @@ fn check_one(name: &str, enclosed: Option<&Path>, mangled: &PathBuf, route: &str
             }
         }
     }
-    let m = mangled.to_string_lossy().into_owned();
+    // compare component-wise (a trailing separator in the returned PathBuf is not a difference)
+    let m: String = mangled.components().map(|c| c.as_os_str().to_string_lossy().into_owned()).collect::<Vec<_>>().join("/");
     let want1 = paths::mangled(name);
     let want2 = mangled_no_backslash(name);
     if mangled.is_absolute() || !only_normal(mangled) {
